@@ -11,10 +11,18 @@
 (*  gen     one path re-used for 3 generations of an archive; all single-archive interfaces before / after each replacement *)
 (*  chain   PatchChain::from_archives_parallel / add_archives_parallel = sequential add_archive (order, ties, winner) *)
 (*  multi   parallel::extract_from_multiple_archives over 1..5 archives, one of them lacking the file. *)
+(*  wide    ALL FOUR multi-archive helpers of parallel.rs (incl. search_in_multiple_archives and       *)
+(*          process_archives_parallel) x archive count 0..9 (thorough: .. 24; a reduce tree over the   *)
+(*          archive list is balanced only for powers of two) x T x per-archive function class x        *)
+(*          position of an archive that cannot be served x the same archive twice;                     *)
+(*  setters extract_with_config x WHICH SETTERS of ParallelConfig the caller invoked (batch size /     *)
+(*          threads / skip left at their defaults) x |req| around ParExtract!SwitchAt and AdaptAt.     *)
 EXTENDS Integers, Sequences, SequencesExt, FiniteSets, Json, IOUtils, TLC
 
 Thorough == IOEnv.VERIF_TIER = "thorough"
-CfgS(i, a, t, b, n, s, m, d, sp) == [kind |-> "cfg", iface |-> i, arch |-> a, t |-> t, b |-> b, n |-> n, skip |-> s, miss |-> m, dup |-> d, spell |-> sp]
+\* set: the setters of ParallelConfig the caller invokes ("tbs" = threads, batch_size, skip_errors: everything explicit)
+CfgX(i, a, t, b, n, s, m, d, sp, st) == [kind |-> "cfg", iface |-> i, arch |-> a, t |-> t, b |-> b, n |-> n, skip |-> s, miss |-> m, dup |-> d, spell |-> sp, set |-> st]
+CfgS(i, a, t, b, n, s, m, d, sp) == CfgX(i, a, t, b, n, s, m, d, sp, "tbs")
 Cfg(i, a, t, b, n, s, m, d) == CfgS(i, a, t, b, n, s, m, d, "listed")
 \* spelling class of the requested names: SeqRead is defined on the MPQ name hash (case and separator folded), not on the
 \* listing: as listed | UPPER | lower | case-flipped | forward slashes | the (listfile) itself | a file no listfile line names
@@ -74,7 +82,29 @@ GenCfg == { Cfg(i, "G", t, b, n, s, m, "none") : i \in {"with_config", "files_pa
             t \in {1, 3, 8}, b \in {1, 3}, n \in {1, 8, 15}, s \in BOOLEAN, m \in {"none", "gone"} }
 GenSel == {c \in GenCfg : /\ (c.iface # "with_config" => ~c.skip) /\ (c.iface \notin {"files_batched", "matching"} => c.b = 1)
                            /\ (c.iface = "matching" => (c.n = 8 /\ c.miss = "none"))}
-Cases == SetToSeq(GenSel) \o SetToSeq(SpelledSel) \o SetToSeq(MultiReqSel) \o SetToSeq(ChainSel) \o SetToSeq(SmallSel) \o SetToSeq(OthersSel) \o SetToSeq(Matching) \o SetToSeq(Big) \o SetToSeq(MultiSel)
+\* the multi-archive helpers, all four, with the archive count as a dimension (pool "W": 12 archives with distinct contents).
+\* b = class of the per-archive function: multi_many: b names per archive; multi_search: pattern class (1 every file, 2 one
+\* file per archive, 3 a file of ONE archive only: empty lists elsewhere); multi_process: processor class (1 read the shared
+\* file, 2 digest of the listing, 3 number of files -- equal for most archives -- next to the archive's path).
+\* miss: the archive at that position cannot be served (lacks the file / does not exist): the call fails as a whole.
+Counts == IF Thorough THEN 0..9 \cup {12, 15, 16, 17, 24} ELSE 0..9
+Wide == { CfgS(i, "W", t, b, n, FALSE, m, d, "listed") : i \in {"multi", "multi_many", "multi_search", "multi_process"},
+          t \in {1, 2, 3, 8}, b \in 1..3, n \in Counts, m \in {"none", "first", "middle", "last"}, d \in {"none", "adj"} }
+WideSel == {c \in Wide : /\ (c.iface = "multi" => c.b = 1) /\ (c.miss # "none" => c.n > 0) /\ (c.dup = "adj" => c.n >= 2)
+                         /\ (Thorough \/ (/\ (c.t = 1 => c.n \in {3, 8})
+                                           /\ (c.miss # "none" => (c.n \in {1, 3, 6} /\ c.t = 3))
+                                           /\ (c.dup = "adj" => (c.n \in {2, 5} /\ c.miss = "none" /\ c.t = 3))))}
+\* extract_with_config with a configuration on which not every setter was called (t = 0 / b = 0: not set; skip is FALSE
+\* unless "s" is set), request sizes around the unbatched / batched switch (1000) and the adaptive batch size (5000)
+SetNs == IF Thorough THEN {0, 1, 8, 999, 1000, 1001, 1002, 1500, 4999, 5000, 5001, 5002, 9000} ELSE {0, 1, 8, 1000, 1001, 5000, 5001}
+Setters == { CfgX("with_config", a, t, b, n, s, m, "none", "listed", st) : a \in {"S", "L"}, t \in {0, 1, 3, 8}, b \in {0, 7}, n \in SetNs,
+             s \in BOOLEAN, m \in {"none", "last"}, st \in {"ts", "bs", "s", "t", "b", "none"} }
+HasSetter(st, x) == x \in (CASE st = "ts" -> {"t", "s"} [] st = "bs" -> {"b", "s"} [] st = "s" -> {"s"} [] st = "t" -> {"t"}
+                                  [] st = "b" -> {"b"} [] st = "none" -> {} [] OTHER -> {"t", "b", "s"})
+SettersSel == {c \in Setters : /\ (c.t # 0 <=> HasSetter(c.set, "t")) /\ (c.b # 0 <=> HasSetter(c.set, "b")) /\ (c.skip => HasSetter(c.set, "s"))
+                               /\ (c.arch = "S" <=> c.n <= 8) /\ (c.miss = "last" => c.n > 0)
+                               /\ (Thorough \/ (c.t \in {0, 3} /\ (c.miss = "last" => c.n \in {8, 1001, 5001})))}
+Cases == SetToSeq(WideSel) \o SetToSeq(SettersSel) \o SetToSeq(GenSel) \o SetToSeq(SpelledSel) \o SetToSeq(MultiReqSel) \o SetToSeq(ChainSel) \o SetToSeq(SmallSel) \o SetToSeq(OthersSel) \o SetToSeq(Matching) \o SetToSeq(Big) \o SetToSeq(MultiSel)
 ASSUME ndJsonSerialize(IOEnv.CASES, Cases)
-ASSUME PrintT(<<"GENERATED", Len(Cases), Cardinality(SmallSel), Cardinality(OthersSel), Cardinality(Big)>>)
+ASSUME PrintT(<<"GENERATED", Len(Cases), Cardinality(SmallSel), Cardinality(OthersSel), Cardinality(Big), Cardinality(WideSel), Cardinality(SettersSel)>>)
 =============================================================================
